@@ -88,9 +88,12 @@ def _child(job, extractor, conn):
                 return nng
 
             vela.process = process
-            so, se = io.StringIO(), io.StringIO()
-            old = sys.stdout, sys.stderr
-            sys.stdout, sys.stderr = so, se
+            # capture at file-descriptor level (some printers bind sys.stdout at import time)
+            sys.stdout.flush()
+            sys.stderr.flush()
+            cap = open(os.path.join(d, "stdout.txt"), "w+")
+            os.dup2(cap.fileno(), 1)
+            os.dup2(cap.fileno(), 2)
             exc = None
             try:
                 rc = vela.main([mpath, "--output-dir", d] + cli_args(job.get("opts", {})))
@@ -100,8 +103,10 @@ def _child(job, extractor, conn):
                 rc = -1
                 exc = traceback.format_exc()
             finally:
-                sys.stdout, sys.stderr = old
-            res = {"id": job.get("id"), "rc": rc, "stdout": so.getvalue(), "stderr": se.getvalue(), "exc": exc}
+                sys.stdout.flush()
+                sys.stderr.flush()
+            cap.seek(0)
+            res = {"id": job.get("id"), "rc": rc, "stdout": cap.read(), "stderr": "", "exc": exc}
             ofile = os.path.join(d, "m_vela.tflite")
             if os.path.exists(ofile):
                 with open(ofile, "rb") as f:
